@@ -277,14 +277,25 @@ end ClassObjects
 /-- `CaObjects.classes` (keyed by resource class name). -/
 abbrev CaObjects := List (Nat × ClassObjects)
 
+/-- What `KeyObjectSet::create` needs for a newly certified key. -/
+structure NewKey where
+  base    : Nat
+  crlName : Nat
+  mftName : Nat
+  i       : IssueIn
+deriving DecidableEq, Repr, Inhabited
+
+def NewKey.create (k : NewKey) (t : Timing) : KeyObjectSet :=
+  KeyObjectSet.create k.base k.crlName k.mftName t k.i
+
 /-- Events as far as `cert_auth_pre_save_events` looks at them. -/
 inductive ObjEvent where
   | roasUpdated (rcn : Nat) (u : ObjUpdates)
   | aspasUpdated (rcn : Nat) (u : ObjUpdates)
   | bgpsecUpdated (rcn : Nat) (u : ObjUpdates)
   | certsUpdated (rcn : Nat) (c : CertUpdates)
-  | keyPendingToActive (rcn : Nat) (set : KeyObjectSet)
-  | keyPendingToNew (rcn : Nat) (set : KeyObjectSet)
+  | keyPendingToActive (rcn : Nat) (key : NewKey)
+  | keyPendingToNew (rcn : Nat) (key : NewKey)
   | keyRollActivated (rcn : Nat) (now : Nat)
   | keyRollFinished (rcn : Nat)
   | certificateReceived (rcn : Nat)
@@ -301,14 +312,14 @@ def modifyClass (o : CaObjects) (rcn : Nat) (f : ClassObjects → Option ClassOb
 
 /-- One arm of the `match event` in `cert_auth_pre_save_events`: new objects and whether the
 event forces a re-issue.  `none`: the listener returns an error (the command fails). -/
-def applyEvent (o : CaObjects) : ObjEvent → Option (CaObjects × Bool)
+def applyEvent (t : Timing) (o : CaObjects) : ObjEvent → Option (CaObjects × Bool)
   | .roasUpdated rcn u | .aspasUpdated rcn u | .bgpsecUpdated rcn u =>
     (modifyClass o rcn fun c => some (c.mapCurrent (·.update u))).map (·, true)
   | .certsUpdated rcn c =>
     (modifyClass o rcn fun k => some (k.mapCurrent (·.updateCerts c))).map (·, true)
-  | .keyPendingToActive rcn set =>
-    if has o rcn then none else some (o ++ [(rcn, .current set)], false)
-  | .keyPendingToNew rcn set => (modifyClass o rcn (·.keyrollStage set)).map (·, false)
+  | .keyPendingToActive rcn key =>
+    if has o rcn then none else some (o ++ [(rcn, .current (key.create t))], false)
+  | .keyPendingToNew rcn key => (modifyClass o rcn (·.keyrollStage (key.create t))).map (·, false)
   | .keyRollActivated rcn now => (modifyClass o rcn (·.keyrollActivate now)).map (·, true)
   | .keyRollFinished rcn => (modifyClass o rcn (·.keyrollFinish)).map (·, false)
   | .certificateReceived rcn => if has o rcn then some (o, false) else none
@@ -316,12 +327,12 @@ def applyEvent (o : CaObjects) : ObjEvent → Option (CaObjects × Bool)
   | .repoUpdated => some (o, true)
   | .other => some (o, false)
 
-def applyEvents (o : CaObjects) : List ObjEvent → Option (CaObjects × Bool)
+def applyEvents (t : Timing) (o : CaObjects) : List ObjEvent → Option (CaObjects × Bool)
   | [] => some (o, false)
   | e :: es =>
-    match applyEvent o e with
+    match applyEvent t o e with
     | none => none
-    | some (o', f) => (applyEvents o' es).map fun (o'', f') => (o'', f || f')
+    | some (o', f) => (applyEvents t o' es).map fun (o'', f') => (o'', f || f')
 
 /-- Per class the two signing inputs of a re-issue. -/
 abbrev IssueInputs := Nat → IssueIn × IssueIn
@@ -336,7 +347,7 @@ def reIssue (o : CaObjects) (force : Bool) (now : Nat) (t : Timing) (ins : Issue
 /-- `CaObjectsStore::cert_auth_pre_save_events`. -/
 def preSave (o : CaObjects) (evs : List ObjEvent) (now : Nat) (t : Timing) (ins : IssueInputs) :
     Option CaObjects :=
-  (applyEvents o evs).map fun (o', force) => (reIssue o' force now t ins).1
+  (applyEvents t o evs).map fun (o', force) => (reIssue o' force now t ins).1
 
 /-- `CaObjectsStore::reissue_if_needed` (one CA of `republish_all`). -/
 def reissueIfNeeded (o : CaObjects) (force : Bool) (now : Nat) (t : Timing) (ins : IssueInputs) :
@@ -344,6 +355,42 @@ def reissueIfNeeded (o : CaObjects) (force : Bool) (now : Nat) (t : Timing) (ins
   reIssue o force now t ins
 
 def allSets (o : CaObjects) : List KeyObjectSet := o.flatMap (·.2.sets)
+
+/-! ### Histories -/
+
+/-- What can happen to one key object set. -/
+inductive SetOp where
+  | update (u : ObjUpdates)
+  | updateCerts (c : CertUpdates)
+  | reissue (i : IssueIn)
+  | retire (now : Nat)
+deriving DecidableEq, Repr, Inhabited
+
+def SetOp.isReissue : SetOp → Bool
+  | .reissue _ => true
+  | _ => false
+
+def KeyObjectSet.step (t : Timing) (s : KeyObjectSet) : SetOp → KeyObjectSet
+  | .update u => s.update u
+  | .updateCerts c => s.updateCerts c
+  | .reissue i => s.reissue t i
+  | .retire now => s.retire now
+
+def KeyObjectSet.run (t : Timing) (s : KeyObjectSet) (ops : List SetOp) : KeyObjectSet :=
+  ops.foldl (KeyObjectSet.step t) s
+
+/-- What can happen to the object store of one CA: a stored command (its events go through the
+pre-save listener; if that fails the command fails and nothing is stored) or one CA's share of
+`republish_all`. -/
+inductive CaOp where
+  | command (evs : List ObjEvent) (now : Nat) (ins : IssueInputs)
+  | republish (force : Bool) (now : Nat) (ins : IssueInputs)
+
+def caStep (t : Timing) (o : CaObjects) : CaOp → CaObjects
+  | .command evs now ins => (preSave o evs now t ins).getD o
+  | .republish force now ins => (reissueIfNeeded o force now t ins).1
+
+def caRun (t : Timing) (o : CaObjects) (ops : List CaOp) : CaObjects := ops.foldl (caStep t) o
 
 /-- `CaObjects::all_publish_elements` (one repository). -/
 def allPublishElements (o : CaObjects) : List ((Nat × Nat) × Nat) := (allSets o).flatMap (·.elements)
